@@ -25,7 +25,7 @@ ASSUMPTIONS = [
     "the code once and stored in the registry",
 ]
 PROFILE = {
-    "quick": dict(examples=1500, shards=16, budget_s=80),
+    "quick": dict(examples=3500, shards=16, budget_s=80),
     "thorough": dict(examples=8000, shards=16, budget_s=1100),
 }
 
